@@ -83,3 +83,12 @@ package req
 //@
 //@ func (*context).RecvMsg
 //@   ensures isnil(result1) ==> result0 != nil
+//@
+//@ func (*socket).RemovePipe
+//@   before call:cancel#1 assert c.failNoPeers && len(s.pipes) == 0
+//@
+//@ func (*context).SendMsg
+//@   at call:AfterFunc#1 assert c.sendExpire > 0 && timer_d(result) == c.sendExpire
+//@
+//@ func (*context).RecvMsg
+//@   at call:AfterFunc#1 assert c.receiveExpire > 0 && timer_d(result) == c.receiveExpire
